@@ -627,23 +627,28 @@ mod imp2 {
                 let k = case["chains"].as_u64().unwrap_or(6) as usize;
                 let limit = case["limit_s"].as_u64().unwrap_or(40);
                 let (txd, rxd) = std::sync::mpsc::channel();
+                let f64_prec = case["precision"].as_str() == Some("f64");
                 std::thread::spawn(move || {
-                    let mk = || {
-                        let g = DiffableGaussian2D::<f32>::new([0.0, 0.0], [[1.0, 0.0], [0.0, 1.0]]);
-                        NUTS::<f32, B32, _>::new(g, vec![vec![0.1_f32, 0.2]; k], 0.8).set_seed(9)
-                    };
-                    let (mut a, mut b) = (mk(), mk());
-                    let r = a.run_progress(4, 1);
-                    // run(5, 1) keeps the states after 1..=5 transitions; run_progress(4, 1) the states after 2..=5
-                    let plain: Vec<f32> = b.run(5, 1).to_data().to_vec().unwrap();
-                    let shifted = match &r {
-                        Ok((s, _)) => {
-                            let v: Vec<f32> = s.to_data().to_vec().unwrap();
-                            (0..k).all(|c| (0..4).all(|i| (0..2).all(|d| v[(c * 4 + i) * 2 + d].to_bits() == plain[(c * 5 + i + 1) * 2 + d].to_bits())))
-                        }
-                        Err(_) => false,
-                    };
-                    let _ = txd.send((r.is_ok(), shifted));
+                    macro_rules! go { ($T:ty, $B:ty) => {{
+                        let mk = || {
+                            let g = DiffableGaussian2D::<$T>::new([0.0, 0.0], [[1.0, 0.0], [0.0, 1.0]]);
+                            NUTS::<$T, $B, _>::new(g, vec![vec![0.1 as $T, 0.2]; k], 0.8).set_seed(9)
+                        };
+                        let (mut a, mut b) = (mk(), mk());
+                        let r = a.run_progress(4, 1);
+                        // run(5, 1) keeps the states after 1..=5 transitions; run_progress(4, 1) the states after 2..=5
+                        let plain: Vec<$T> = b.run(5, 1).to_data().to_vec().unwrap();
+                        let shifted = match &r {
+                            Ok((s, _)) => {
+                                let v: Vec<$T> = s.to_data().to_vec().unwrap();
+                                (0..k).all(|c| (0..4).all(|i| (0..2).all(|d| v[(c * 4 + i) * 2 + d].to_bits() == plain[(c * 5 + i + 1) * 2 + d].to_bits())))
+                            }
+                            Err(_) => false,
+                        };
+                        (r.is_ok(), shifted)
+                    }}; }
+                    let res = if f64_prec { go!(f64, B64) } else { go!(f32, B32) };
+                    let _ = txd.send(res);
                 });
                 match rxd.recv_timeout(std::time::Duration::from_secs(limit)) {
                     Ok((ok, shifted)) => json!({"timeout": false, "ok": ok, "shifted_trajectory": shifted}),
